@@ -83,6 +83,25 @@ def build_modules():
         # with 31 pairs each body has 128 bytes, so 127-130 of them push the code section across the 16384-byte boundary
         for pairs in (1, 31):
             out.append((f"funcs:{nf}:{pairs}", module(nf, lambda k: f"f{k}", pairs, False), {"names": [f"f{k}" for k in range(nf)]}))
+    # runs of locals of one type (the writer merges them into one entry with a count): counts across 128 and mixed runs
+    def locals_module(runs):
+        m = W.Module()
+        t = m.AddFunctionType(W.FunctionType([W.ValueType.i32], [W.ValueType.i32]))
+        m.AddFunction(t)
+        m.AddExport(W.Export(0, "f"))
+        c = W.Code()
+        for ty, cnt in runs:
+            for _ in range(cnt):
+                c.AddLocal(W.Local(ty))
+        c.AddInstruction(W.Instruction(W.opcodes["local.get"], (0,)))
+        m.AddCode(c)
+        m.AddTable(W.Table(0))
+        buf = io.BytesIO()
+        m.WriteTo(buf)
+        return buf.getvalue()
+    for nm, runs in (("1", [(W.ValueType.i32, 1)]), ("127", [(W.ValueType.i32, 127)]), ("128", [(W.ValueType.i32, 128)]), ("129", [(W.ValueType.f32, 129)]), ("200", [(W.ValueType.i32, 200)]),
+                     ("100+100", [(W.ValueType.i32, 100), (W.ValueType.f32, 100)]), ("130+3+130", [(W.ValueType.f32, 130), (W.ValueType.i32, 3), (W.ValueType.f32, 130)])):
+        out.append((f"locals:{nm}", locals_module(runs), {"names": ["f"]}))
     # bodies of different sizes in one module, in rising, falling and mixed order: every body's size field counts its own bytes
     for nm, sizes in (("rising", [1, 5, 20, 70]), ("falling", [70, 20, 5, 1]), ("mixed", [3, 40, 2, 66, 1, 9]), ("across128", [70, 30, 64, 1])):
         out.append((f"sizes:{nm}", module(len(sizes), lambda k: f"f{k}", lambda k, sizes=sizes: sizes[k], False), {"names": [f"f{k}" for k in range(len(sizes))]}))
